@@ -17,6 +17,7 @@ mod arg;
 mod plg;
 mod rem;
 mod rsn;
+mod cvt;
 
 pub use rng::Rng;
 
@@ -44,6 +45,7 @@ fn area(name: &str) -> Box<dyn Area> {
         "plg" => Box::new(plg::Plg),
         "rem" => Box::new(rem::Rem),
         "rsn" => Box::new(rsn::Rsn),
+        "cvt" => Box::new(cvt::Cvt),
         _ => {
             eprintln!("unknown area {}", name);
             std::process::exit(2)
